@@ -132,6 +132,7 @@ struct Slot
     uint32_t threads = 0;
     int extends = 0;
     uint64_t last_extend_n = 0;
+    int extension = 1;
 };
 
 struct Ctx
@@ -143,6 +144,7 @@ struct Ctx
     bool icv_perturbed = false;
     std::set<std::string> seen_memory;
     uint64_t last_out_digest = 0;
+    sim::IcvState host_icv{4, 64, false}; // ICVs as the host application alone would have left them (machine + HOST_ICV ops)
     explicit Ctx(const Plan &p) : plan(p) {}
 
     void violation(const char *cls, std::vector<std::string> props, const Op &op, const std::string &oracle_name, const std::string &detail)
@@ -166,10 +168,10 @@ static const char *prop_of(const Op &op)
     switch (op.kind)
     {
     case plan::K_NTT:
-        return "C03";
+        return op.extension > 1 ? "C05" : "C03"; // zero-padding objects are the mechanism behind extendPol
     case plan::K_INTT:
     case plan::K_ROUNDTRIP:
-        return "C04";
+        return op.extension > 1 ? "C05" : "C04";
     case plan::K_EXTEND:
         return "C05";
     case plan::K_MERKLE:
@@ -360,7 +362,7 @@ static TOut run_transform(Ctx &c, const Op &op, void *obj, const sim::OpSim &cfg
         B.fill(dirty_bufs, derive_seed(gseed, 3));
         uint64_t *outp = inplace ? X.p() : O.p();
         t.st = simulate(cfg, [&] {
-            void *o = obj ? obj : shim::ntt_new((op.maxn == 0 && op.n == 0) ? 0 : std::max<uint64_t>(op.maxn, std::max<uint64_t>(op.n, 1)), op.obj_threads, 1);
+            void *o = obj ? obj : shim::ntt_new((op.maxn == 0 && op.n == 0) ? 0 : std::max<uint64_t>(op.maxn, std::max<uint64_t>(op.n, 1)), op.obj_threads, op.kind == plan::K_EXTEND ? 1 : op.extension);
             shim::ntt_extendPol(o, outp, X.p(), op.n_ext, op.n, ncols, op.buffer ? B.p() : nullptr, op.nphase, op.nblock);
             if (!obj)
                 shim::ntt_delete(o);
@@ -402,7 +404,7 @@ static TOut run_transform(Ctx &c, const Op &op, void *obj, const sim::OpSim &cfg
     }
     std::vector<uint64_t> mid;
     t.st = simulate(cfg, [&] {
-        void *o = obj ? obj : shim::ntt_new((op.maxn == 0 && op.n == 0) ? 0 : std::max<uint64_t>(op.maxn, std::max<uint64_t>(op.n, 1)), op.obj_threads, 1);
+        void *o = obj ? obj : shim::ntt_new((op.maxn == 0 && op.n == 0) ? 0 : std::max<uint64_t>(op.maxn, std::max<uint64_t>(op.n, 1)), op.obj_threads, op.kind == plan::K_EXTEND ? 1 : op.extension);
         if (first_inverse)
             (op.inv_via_ntt ? shim::ntt_NTT_inverse : shim::ntt_INTT)(o, d1, S.p(), op.n, ncols, op.buffer ? B.p() : nullptr, op.nphase, op.nblock);
         else
@@ -448,7 +450,8 @@ static void ensure_slot(Ctx &c, const Op &op)
         return;
     Slot &s = c.slots[op.obj & 1];
     uint64_t need = std::max<uint64_t>(op.n, 1);
-    if (s.o && (s.maxn < need))
+    int want_ext = op.kind == plan::K_EXTEND ? 1 : op.extension;
+    if (s.o && (s.maxn < need || s.extension != want_ext))
     {
         // only reachable in hand-edited / minimised plans: rebuild the object large enough
         void *o = s.o;
@@ -466,11 +469,12 @@ static void ensure_slot(Ctx &c, const Op &op)
         if (maxn == 0)
             c.res.probes.insert("object_for_maxDomainSize_0");
         void *o = nullptr;
-        auto st = simulate(cfg, [&] { o = shim::ntt_new(maxn, op.obj_threads, 1); });
+        auto st = simulate(cfg, [&] { o = shim::ntt_new(maxn, op.obj_threads, want_ext); });
         account_memory(c, op, st, "object construction");
         s.o = o;
         s.maxn = maxn;
         s.threads = op.obj_threads;
+        s.extension = want_ext;
         if (op.obj_threads == 0)
             c.res.probes.insert(c.icv_perturbed ? "ctor_nThreads0_after_icv_perturb" : "ctor_nThreads0");
     }
@@ -519,9 +523,11 @@ static void exec_transform(Ctx &c, const Op &op)
         r.ref_steps += ref.st.steps + ref.st.serial_steps;
         account_memory(c, op, ref.st, "one-member reference run");
     };
+    sim::IcvState icv_pre = sim::icv_save();
     auto do_main = [&] {
         ensure_slot(c, op);
         void *obj = op.obj < 0 ? nullptr : c.slots[op.obj & 1].o;
+        icv_pre = sim::icv_save();
         g_misalign = op.misaligned_bufs;
         m = run_transform(c, op, obj, mc, op.dirty_bufs, op.garbage_seed, in, true);
         g_misalign = false;
@@ -616,15 +622,23 @@ static void exec_transform(Ctx &c, const Op &op)
     c.last_out_digest = fnv_vec(m.out, 1);
     std::vector<uint64_t> expect, expect_mid;
     std::string oname;
+    std::vector<uint64_t> padded = in;
+    if (op.extension > 1 && op.kind != plan::K_EXTEND)
+    {
+        for (uint64_t row = op.n / (uint64_t)op.extension; row < op.n; row++)
+            for (uint64_t cc = 0; cc < op.ncols; cc++)
+                padded[row * op.ncols + cc] = 0;
+        r.probes.insert("extension_object_used_directly");
+    }
     switch (op.kind)
     {
     case plan::K_NTT:
-        oracle::dft(expect, in, op.n, op.ncols);
-        oname = "DFT reference";
+        oracle::dft(expect, padded, op.n, op.ncols);
+        oname = op.extension > 1 ? "DFT reference of the zero-padded input (extension object)" : "DFT reference";
         break;
     case plan::K_INTT:
-        oracle::idft(expect, in, op.n, op.ncols);
-        oname = "inverse DFT reference";
+        oracle::idft(expect, padded, op.n, op.ncols);
+        oname = op.extension > 1 ? "inverse DFT reference of the zero-padded input (extension object)" : "inverse DFT reference";
         break;
     case plan::K_ROUNDTRIP:
         expect = in;
@@ -661,24 +675,31 @@ static void exec_transform(Ctx &c, const Op &op)
     long db = first_diff_bits(m.out, ref.out);
     if (db >= 0)
     {
-        // attribute: garbage dependence (C18), history dependence (C19) or team/schedule dependence (C12)
-        sim::IcvState icv2 = sim::icv_save();
+        // attribute: garbage dependence (C18), object-history dependence (C19), dependence on the OpenMP settings
+        // earlier library calls left behind (C19 + C12), or team/schedule dependence (C12)
+        sim::IcvState icv_after = sim::icv_save();
         sim::OpSim gc = ref_cfg();
         gc.dirty_heap = op.dirty_heap;
         gc.garbage_seed = op.garbage_seed;
         TOut g = run_transform(c, op, nullptr, gc, op.dirty_bufs, op.garbage_seed, in, false);
-        sim::icv_restore(icv2);
         sim::OpSim fc = sim_cfg_of(op);
         fc.step_limit = mc.step_limit;
         fc.step_estimate = mc.step_estimate;
+        sim::icv_restore(icv_pre); // what the simulated execution saw
+        g_misalign = op.misaligned_bufs;
         TOut f = run_transform(c, op, nullptr, fc, op.dirty_bufs, op.garbage_seed, in, false);
-        sim::icv_restore(icv2);
+        sim::icv_restore(c.host_icv); // what it would have seen had no library call run before it
+        TOut h = run_transform(c, op, nullptr, fc, op.dirty_bufs, op.garbage_seed, in, false);
+        g_misalign = false;
+        sim::icv_restore(icv_after);
         char buf[300];
         snprintf(buf, sizeof buf, "word %ld: simulated %llu vs one-member fresh-object %llu", db, (unsigned long long)m.out[db], (unsigned long long)ref.out[db]);
         if (first_diff_bits(g.out, ref.out) >= 0)
             c.violation("uninitialised-read", {"C18", prop}, op, "result depends on the contents of fresh heap blocks / scratch / destination garbage", buf);
         else if (op.obj >= 0 && first_diff_bits(f.out, m.out) >= 0)
             c.violation("fresh-object-mismatch", {"C19"}, op, "k-th call on the shared object vs the same call on a freshly constructed object", buf);
+        else if (first_diff_bits(h.out, m.out) >= 0)
+            c.violation("settings-history-mismatch", {"C19", "C12"}, op, "same call, same schedule, but with the OpenMP settings as the host alone left them (no earlier library call)", buf);
         else
             c.violation("single-member-mismatch", {"C12"}, op, "bit-identical to the one-member execution", buf);
     }
@@ -941,6 +962,7 @@ RunResult run_plan(const Plan &p0, uint64_t garbage_salt)
     c.res.shape_hash = shape_hash_of(p);
     c.res.sched_hash = 0xcbf29ce484222325ULL;
     sim::set_machine(p.machine);
+    c.host_icv = sim::icv_save();
     if (p.fault_free)
         c.res.probes.insert("fault_free_configuration");
     for (size_t i = 0; i < p.ops.size(); i++)
@@ -973,6 +995,12 @@ RunResult run_plan(const Plan &p0, uint64_t garbage_salt)
             break;
         case plan::K_HOST_ICV:
             sim::host_set_icv(op.icv_nthreads, op.icv_dyn, op.icv_limit);
+            if (op.icv_nthreads > 0)
+                c.host_icv.nthreads_var = op.icv_nthreads;
+            if (op.icv_dyn >= 0)
+                c.host_icv.dyn = op.icv_dyn != 0;
+            if (op.icv_limit > 0)
+                c.host_icv.thread_limit = op.icv_limit;
             c.icv_perturbed = true;
             c.res.faults["icv_perturb"]++;
             break;
